@@ -19,8 +19,8 @@ plan('C16',
          Job(H, 'buffer', 'asan', quick=60000, thorough=400000, shards=(8, 16)),
          Job(H, 'file', 'plain', quick=50000, thorough=400000, shards=(6, 16)),
          Job(H, 'file', 'asan', quick=20000, thorough=120000, shards=(6, 16)),
-         Job(H, 'socket', 'plain', quick=12000, thorough=150000, shards=(8, 16)),
-         Job(H, 'socket', 'asan', quick=6000, thorough=60000, shards=(8, 16)),
+         Job(H, 'socket', 'plain', quick=12000, thorough=100000, shards=(8, 16)),
+         Job(H, 'socket', 'asan', quick=6000, thorough=50000, shards=(8, 16)),
          # stratum B: arrays of multi-byte elements written in host byte order (the Array<T> fast path)
          Job(H, 'buffer_hostorder_arrays', 'plain', quick=30000, thorough=300000, shards=(2, 8)),
          Job(H, 'buffer_hostorder_arrays', 'asan', quick=10000, thorough=100000, shards=(2, 8)),
